@@ -34,7 +34,7 @@ REQUIRED_CELLS = {
     'thorough': [],
 }
 
-TOL = 1e-11
+TOL = 1e-12
 TOL_CANCEL = 1e-9
 
 
@@ -105,10 +105,10 @@ def check_fields(ctx, site, region, r, nu, idx, X, basis, phases, chems, rtol=1e
         ctx.fail(f'{site}|{region}|shape', f'{got.shape} vs {nu.shape}')
     sc = max(1.0, float(np.abs(nu).max()))
     err = float(np.abs(got - nu).max())
-    ctx.metric_max('fields.stoichiometry:rel_err', err / sc if np.isfinite(err) else 1e300)
     if not err <= rtol * sc:
         ctx.fail(f'{site}|{region}|mismatch',
                  f'stoichiometry {got.tolist()} but expected {nu.tolist()} (X={r.X!r}, expected {X!r})')
+    ctx.metric_max(f'fields.stoichiometry:rel_err(rtol={rtol:g})', err / sc)
     if not abs(float(r.X) - X) <= 1e-12 * max(1.0, abs(X)):
         ctx.fail(f'{site}|{region}|mismatch', f'X={r.X!r} but expected {X!r}')
     if _norm_index(r._reactant_index) != _norm_index(idx):
@@ -490,7 +490,7 @@ def prop_purity(ch, ctx):
         ctx.fail(f'{op}|{region}|shared-storage', 'the result shares its stoichiometry storage with the operand')
     assert_pure(ctx, op, region, 'a', a, before)
     check_fields(ctx, op, region, res, want_nu, want_idx, want_X, want_basis, w.phases, w.chems,
-                 rtol=1e-12 if op != 'basis_roundtrip' else 1e-11, cls=tmo.Reaction)
+                 rtol=1e-12, cls=tmo.Reaction)
     ref = rx.RefRxn('rxn', nu=want_nu, idx=want_idx, X=want_X)
     apply(ctx, w, op + '.apply', region, res, ref, want_basis, feed, tgt, sphase)
     def mut():
